@@ -498,4 +498,62 @@ def composeOutcome (os : List Outcome) : Outcome :=
     | some o => o
     | none => .report
 
+/-! ### Which results a run computes (`--option`, `--near-field`), and which inputs those results look at
+
+`main` builds the set `options` from every `--option`; an empty set means *near field* when `--near-field` parameters were
+given and *far field* otherwise; `--option=near-field` without parameters is a diagnostic.  The far field is computed when
+any option starts with `far`, the near field when `near-field` is in the set.  A few inputs are looked at only by one of
+these stages (or, for the distance, only when the V/m table is rendered); everything else is validated while the model is
+built or is used by the solve itself, whatever was requested. -/
+
+inductive ResOpt where
+  | farField | farAbs | nearField | none
+deriving Repr, DecidableEq, Inhabited
+
+structure Selection where
+  far : Bool        -- `compute_far_field` runs
+  farAbs : Bool     -- the V/m table is rendered
+  near : Bool       -- `compute_near_field` runs
+deriving Repr, DecidableEq, Inhabited
+
+/-- `none`: the diagnostic "Option near-field needs --near-field parameters" -/
+def select (opts : List ResOpt) (nearGiven : Bool) : Option Selection :=
+  if opts.contains .nearField && !nearGiven then none
+  else some { far := opts.any (fun o => o == .farField || o == .farAbs) || (opts.isEmpty && !nearGiven)
+              farAbs := opts.contains .farAbs
+              near := opts.contains .nearField || (opts.isEmpty && nearGiven) }
+
+inductive Stage where
+  | always | far | farAbs | near
+deriving Repr, DecidableEq, Inhabited
+
+/-- where the diagnostic of a malformed input comes from -/
+def stage : Field → NumClass → Stage
+  | .radialCount, .neg => .far
+  | .ffPower, .neg | .ffPower, .inf | .ffPower, .nan => .far
+  | .ffDistance, .nan => .far
+  | .ffDistance, .inf => .farAbs
+  | .thetaStart, .inf | .thetaStart, .nan => .far
+  | .phiInc, .inf | .phiInc, .nan => .far
+  | .nfPower, .neg | .nfPower, .inf | .nfPower, .nan => .near
+  | _, _ => .always
+
+def Selection.runs (s : Selection) : Stage → Bool
+  | .always => true
+  | .far => s.far
+  | .farAbs => s.farAbs
+  | .near => s.near
+
+/-- the outcome of one input when the results `s` are computed: a diagnostic of a stage that does not run cannot occur -/
+def expectedSel (s : Selection) (f : Field) (c : NumClass) : Outcome :=
+  match expected f c with
+  | .diag => if s.runs (stage f c) then .diag else .report
+  | o => o
+
+/-- validation of a whole command line: the inputs, the result options, whether `--near-field` parameters are present -/
+def composeSel (opts : List ResOpt) (nearGiven : Bool) (inputs : List (Field × NumClass)) : Outcome :=
+  match select opts nearGiven with
+  | none => composeOutcome (inputs.map (fun fc => expected fc.1 fc.2) ++ [.diag])
+  | some s => composeOutcome (inputs.map fun fc => expectedSel s fc.1 fc.2)
+
 end Pmn.Guard
